@@ -233,3 +233,220 @@ pub fn scenario(idx: usize, seed: u64, millis: u64, judge: Judge) -> ScenarioRes
         .count("realnet_drain_list_drain_samples", samples.load(Ordering::SeqCst))
         .count("realnet_events", events_seen.load(Ordering::SeqCst))
 }
+
+/// C05 on real sockets: two Networks on UDP loopback and a multi-threaded runtime dial each other
+/// at the same moment (released by a barrier, optional sub-millisecond skew), round after round.
+/// The interleavings of the two handshakes, of the registrations in both connection managers and
+/// of the loser's close notification are whatever 4 worker threads and the kernel produce.
+/// Judged per round (bounded progress, never a single wall-clock deadline: a state counts as wrong
+/// only if it stays wrong and unchanged for 5 s): both list each other exactly once, the events per
+/// side alternate starting with NewPeer, RPCs succeed in both directions, and nothing more happens
+/// for the pair during a quiet window.
+pub fn mutual_scenario(idx: usize, seed: u64, rounds: usize) -> ScenarioResult {
+    let mut rng = StdRng::seed_from_u64(seed ^ 0x5e2);
+    let rt = tokio::runtime::Builder::new_multi_thread().worker_threads(4).enable_all().build().unwrap();
+    let log = Log::new();
+    let nets: Vec<Network> = {
+        let _g = rt.enter();
+        (0..2)
+            .map(|i| {
+                let (svc, _) = HarnessService::new(i, log.clone());
+                let mut key = [0u8; 32];
+                rng.fill(&mut key);
+                let mut cfg = anemo::Config::default();
+                cfg.peer_event_broadcast_channel_capacity = Some(1 << 14);
+                cfg.connect_timeout_ms = Some(5_000);
+                cfg.shutdown_idle_timeout_ms = Some(500);
+                Network::bind("127.0.0.1:0").config(cfg).server_name("verif").private_key(key).start(svc).unwrap()
+            })
+            .collect()
+    };
+    let (a, b) = (nets[0].clone(), nets[1].clone());
+    let (ida, idb) = (a.peer_id(), b.peer_id());
+    let (adda, addb) = (a.local_addr(), b.local_addr());
+    let mut problems: Vec<String> = Vec::new();
+    let (mut done, mut both_ok, mut events_total, mut flaps) = (0u64, 0u64, 0u64, 0u64);
+    let mut seqs: BTreeSet<String> = BTreeSet::new();
+    let t0 = Instant::now();
+    rt.block_on(async {
+        let (mut rxa, _) = a.subscribe().unwrap();
+        let (mut rxb, _) = b.subscribe().unwrap();
+        for round in 0..rounds {
+            let gate = Arc::new(tokio::sync::Barrier::new(2));
+            let skew_a = Duration::from_micros(if rng.gen_bool(0.5) { 0 } else { rng.gen_range(0..800) });
+            let skew_b = Duration::from_micros(if rng.gen_bool(0.5) { 0 } else { rng.gen_range(0..800) });
+            let pin = rng.gen_bool(0.3);
+            let (a2, b2, g1, g2) = (a.clone(), b.clone(), gate.clone(), gate.clone());
+            let ha = tokio::spawn(async move {
+                g1.wait().await;
+                if !skew_a.is_zero() {
+                    tokio::time::sleep(skew_a).await;
+                }
+                if pin { a2.connect_with_peer_id(addb, idb).await } else { a2.connect(addb).await }
+            });
+            let hb = tokio::spawn(async move {
+                g2.wait().await;
+                if !skew_b.is_zero() {
+                    tokio::time::sleep(skew_b).await;
+                }
+                b2.connect(adda).await
+            });
+            let ra = ha.await.unwrap();
+            let rb = hb.await.unwrap();
+            done += 1;
+            if let (Ok(x), Ok(y)) = (&ra, &rb) {
+                both_ok += 1;
+                if *x != idb || *y != ida {
+                    problems.push(format!("round {round}: a dial returned the wrong identity"));
+                    break;
+                }
+            }
+            // settle: wait until the listings are right; wrong-and-unchanged for 5 s is a verdict
+            let want = |n: &Network, p: PeerId| n.peers() == vec![p];
+            let mut last_change = Instant::now();
+            let mut last = (a.peers(), b.peers());
+            let settled = loop {
+                if want(&a, idb) && want(&b, ida) {
+                    break true;
+                }
+                tokio::time::sleep(Duration::from_millis(2)).await;
+                let now = (a.peers(), b.peers());
+                if now != last {
+                    last = now;
+                    last_change = Instant::now();
+                }
+                if last_change.elapsed() > Duration::from_secs(5) {
+                    break false;
+                }
+            };
+            if !settled {
+                if ra.is_ok() || rb.is_ok() {
+                    problems.push(format!(
+                        "round {round}: after a simultaneous mutual dial (results {:?}/{:?}) the listings stayed at A:{} B:{} entries for 5 s instead of one entry each",
+                        ra.as_ref().map(|_| "ok").map_err(|e| format!("{e:#}").chars().take(60).collect::<String>()),
+                        rb.as_ref().map(|_| "ok").map_err(|e| format!("{e:#}").chars().take(60).collect::<String>()),
+                        last.0.len(), last.1.len()
+                    ));
+                    break;
+                }
+                continue; // both dials failed (load): nothing to judge in this round
+            }
+            // RPCs in both directions over whatever connection survived (a request that raced the
+            // loser's close may fail once; a second failure on a settled pair is the verdict)
+            for (n, i, p) in [(&a, 0usize, idb), (&b, 1usize, ida)] {
+                let mut ok = false;
+                for _ in 0..3 {
+                    let r = tokio::time::timeout(Duration::from_secs(20), world::rpc(&log, n, i, p, &RpcSpec::simple(64, round as u64))).await;
+                    if matches!(r, Ok((_, Ok(_)))) {
+                        ok = true;
+                        break;
+                    }
+                    tokio::time::sleep(Duration::from_millis(20)).await;
+                }
+                if !ok {
+                    problems.push(format!("round {round}: RPCs from side {i} fail three times in a row although both sides list each other"));
+                }
+            }
+            // quiet window, then the event sequences of this round
+            tokio::time::sleep(Duration::from_millis(rng.gen_range(5..40))).await;
+            for (name, rx, other) in [("A", &mut rxa, idb), ("B", &mut rxb, ida)] {
+                let mut seq = String::new();
+                let alternating = |seq: &str| seq.chars().enumerate().all(|(i, c)| c == if i % 2 == 0 { 'N' } else { 'L' }) && seq.len() % 2 == 1;
+                // a replacement publishes LostPeer and NewPeer back to back: a drain that lands between
+                // the two sends sees an even-length prefix, so an unfinished sequence is re-read a
+                // few times before it is judged
+                for attempt in 0..50 {
+                    loop {
+                        match rx.try_recv() {
+                            Ok(PeerEvent::NewPeer(p)) if p == other => seq.push('N'),
+                            Ok(PeerEvent::LostPeer(p, _)) if p == other => seq.push('L'),
+                            Ok(_) => seq.push('?'),
+                            Err(tokio::sync::broadcast::error::TryRecvError::Empty) => break,
+                            Err(_) => {
+                                seq.push('!');
+                                break;
+                            }
+                        }
+                    }
+                    if alternating(&seq) || seq.contains('!') || seq.contains('?') {
+                        break;
+                    }
+                    tokio::time::sleep(Duration::from_millis(if attempt < 10 { 2 } else { 100 })).await;
+                }
+                events_total += seq.len() as u64;
+                // alternating, starting and ending with NewPeer: N, NLN (replacement), ...
+                if !alternating(&seq) {
+                    problems.push(format!("round {round}: side {name} saw the event sequence {seq:?} for the pair (must alternate NewPeer/LostPeer and end connected)"));
+                }
+                if seq.len() > 3 {
+                    flaps += 1;
+                }
+                seqs.insert(format!("{name}:{seq}"));
+            }
+            {
+                let mut last_change = Instant::now();
+                let mut last = (a.peers(), b.peers());
+                loop {
+                    if want(&a, idb) && want(&b, ida) {
+                        break;
+                    }
+                    tokio::time::sleep(Duration::from_millis(2)).await;
+                    let now = (a.peers(), b.peers());
+                    if now != last {
+                        last = now;
+                        last_change = Instant::now();
+                    }
+                    if last_change.elapsed() > Duration::from_secs(5) {
+                        problems.push(format!("round {round}: the pair did not stay connected after converging (A lists {}, B lists {} for 5 s)", last.0.len(), last.1.len()));
+                        break;
+                    }
+                }
+            }
+            if !problems.is_empty() {
+                break;
+            }
+            // tear the pair down for the next round: one side disconnects, both must end empty
+            let _ = if rng.gen_bool(0.5) { a.disconnect(idb) } else { b.disconnect(ida) };
+            let mut last_change = Instant::now();
+            let mut last = (a.peers(), b.peers());
+            loop {
+                if last.0.is_empty() && last.1.is_empty() {
+                    break;
+                }
+                tokio::time::sleep(Duration::from_millis(1)).await;
+                let now = (a.peers(), b.peers());
+                if now != last {
+                    last = now;
+                    last_change = Instant::now();
+                }
+                if last_change.elapsed() > Duration::from_secs(5) {
+                    // (C09's concern, not C05's: reported there; here just start over cleanly)
+                    let _ = a.disconnect(idb);
+                    let _ = b.disconnect(ida);
+                    tokio::time::sleep(Duration::from_millis(50)).await;
+                    break;
+                }
+            }
+            // drain the LostPeer events of the tear-down
+            tokio::time::sleep(Duration::from_millis(2)).await;
+            while rxa.try_recv().is_ok() {}
+            while rxb.try_recv().is_ok() {}
+        }
+        for n in [&a, &b] {
+            let _ = tokio::time::timeout(Duration::from_secs(5), n.shutdown()).await;
+        }
+    });
+    drop(rt);
+    let sample = json!({"kind": "real-socket simultaneous mutual dials", "scenario": idx, "seed": seed, "rounds": done, "both_dials_ok": both_ok,
+        "wall_ms": t0.elapsed().as_millis() as u64, "event_sequences_seen": seqs, "rounds_with_more_than_one_replacement": flaps});
+    let r = if !problems.is_empty() {
+        let mut w = sample;
+        w["problems"] = json!(problems);
+        ScenarioResult::violated(problems[0].clone(), w)
+    } else if both_ok == 0 {
+        ScenarioResult::inconclusive("no real-socket mutual dial completed on both sides")
+    } else {
+        ScenarioResult::held(format!("realnet mutual seqs={}", seqs.len())).with_sample(sample)
+    };
+    r.count("realnet_mutual_rounds", done).count("realnet_mutual_both_ok", both_ok).count("realnet_mutual_events", events_total)
+}
